@@ -96,34 +96,37 @@ Definition exec_prop (m : mech) (conf rule exp : option Z) (now dmax : Z) (o : e
 
     [h]: the header values as the driver's own RFC 7234 reader parsed them;
     [cachable]: pquerna/cachecontrol's verdict on cachability (oracle);
-    [now .. now + dmax]: bracket around the first request (one clock second);
+    [now .. now + dmax]: bracket around the first request;
+    [bdelay]: time the response body took to arrive after the headers (a lower
+    bound of the time between the library's clock reading and [time.Until]);
     [o_nsets]/[o_set]: number of Set calls / the ttl of the first one;
-    [o_hit]: the second request, sent [tget] after the Set instant (at most
-    [tget + dmax]), was answered without reaching the transport. *)
+    [o_hit]: the second request, finished at most [tget] after the Set was
+    called, was answered without reaching the transport. *)
 
 Definition mkh (maxage : option Z) (expires : option (option Z)) (date : option Z) (age : Z) : hvals :=
   {| hv_maxage := maxage; hv_expires := expires; hv_date := date; hv_age := age |}.
 
-Definition http_corr (f : fixes) (b : backend) (cachable : bool) (h : hvals) (dflt now dmax tget : Z)
+Definition http_corr (f : fixes) (b : backend) (cachable : bool) (h : hvals) (dflt now dmax bdelay tget : Z)
            (o_nsets : Z) (o_set : option Z) (o_hit : bool) : bool :=
   (o_nsets =? (if is_some o_set then 1 else 0)) &&
   match o_set with
   | Some t =>
       (0 <? t) &&
-      match http_store_hdr f cachable h dflt now now with Some hi => t <=? hi | None => false end &&
+      match http_store_hdr f cachable h dflt now (now + bdelay) with Some hi => t <=? hi | None => false end &&
       implb o_hit (is_some (cget b tget 1 (cset b 0 1 tt t [])))
   | None => negb o_hit
   end.
 
 (** the property on the observation: a response is handed to the cache only
-    with a positive ttl within the RFC 7234 freshness it has left on arrival
-    (so not at all when that is zero, negative or absent), and it is served from
-    cache only within it *)
-Definition http_prop (h : hvals) (dflt now dmax tget : Z) (o_set : option Z) (o_hit : bool) : bool :=
+    with a positive ttl within the RFC 7234 freshness it has left AT THE TIME OF
+    THE SET -- what it had left on arrival minus the time its body took to arrive
+    ([bdelay], measured by the driver's body reader) -- so not at all when that
+    is zero, negative or absent; and it is served from cache only within it *)
+Definition http_prop (h : hvals) (dflt now dmax bdelay tget : Z) (o_set : option Z) (o_hit : bool) : bool :=
   match rfc_remaining h dflt now with
   | Some l =>
-      match o_set with Some t => (0 <? t) && (t <=? l) | None => true end &&
-      (if o_hit then tget <=? l else true)
+      match o_set with Some t => (0 <? t) && (t <=? l - bdelay) | None => true end &&
+      (if o_hit then tget <=? l - bdelay else true)
   | None => negb (is_some o_set) && negb o_hit
   end.
 
@@ -341,7 +344,7 @@ Definition mix_guards (f : fixes) (m : mech) (evs : list mevent) : list (Z * boo
 
 Inductive case :=
 | CExec (m : mech) (conf rule exp : option Z) (now dmax : Z) (obs : eobs)
-| CHttp (b : backend) (cachable : bool) (h : hvals) (dflt now dmax tget : Z)
+| CHttp (b : backend) (cachable : bool) (h : hvals) (dflt now dmax bdelay tget : Z)
         (o_nsets : Z) (o_set : option Z) (o_hit : bool)
 | CCache (b : backend) (ops : list cop)
 | CHist (b : backend) (hk : hkind) (slack xsets : Z) (evs : list hevent) (obs : list hobs)
@@ -356,10 +359,10 @@ Definition check (f : fixes) (c : case) : verdict :=
          v_prop := exec_prop m conf rule exp now dmax o;
          v_guards := guards [(1, guard_F1 f m st exp now || guard_F1 f m st exp (now + dmax));
                              (3, guard_F3 f m conf rule)] |}
-  | CHttp b cachable h dflt now dmax tget o_nsets o_set o_hit =>
-      {| v_corr := http_corr f b cachable h dflt now dmax tget o_nsets o_set o_hit;
-         v_prop := http_prop h dflt now dmax tget o_set o_hit;
-         v_guards := guards [(2, negb (fx2 f)); (4, guard_F4 f h dflt now)] |}
+  | CHttp b cachable h dflt now dmax bdelay tget o_nsets o_set o_hit =>
+      {| v_corr := http_corr f b cachable h dflt now dmax bdelay tget o_nsets o_set o_hit;
+         v_prop := http_prop h dflt now dmax bdelay tget o_set o_hit;
+         v_guards := guards [(2, negb (fx2 f)); (4, negb (fx4 f))] |}
   | CCache b ops =>
       {| v_corr := cache_corr b [] ops; v_prop := cache_prop [] ops; v_guards := [] |}
   | CHist b hk slack xsets evs obs =>
